@@ -214,6 +214,7 @@ pub struct Ctx {
 
 impl Ctx {
     pub fn new(id: &str, tier: Tier, stage: Stage, seed: u64, shard: u64, nshards: u64) -> Self {
+        install_logger();
         Ctx {
             id: id.into(),
             tier,
@@ -394,6 +395,9 @@ impl Ctx {
     pub fn finish(mut self) -> Value {
         // leftover H1 observations
         self.drain_chain_hook(|| json!("end of shard"));
+        let (recs, octets) = log_stats();
+        self.obs("library_log_records_formatted", recs);
+        self.obs("library_log_octets_formatted", octets);
         let sigs: Vec<String> = self.signatures.iter().map(|h| format!("{:016x}", h)).collect();
         let mut samples = Vec::new();
         for (k, vs) in &self.samples {
@@ -511,4 +515,57 @@ pub fn hash2_of<T: std::hash::Hash + ?Sized>(t: &T) -> u64 {
     let mut b = WordHasher::default();
     t.hash(&mut b);
     a.finish() ^ b.finish().rotate_left(29).wrapping_mul(0x9e37_79b9_7f4a_7c15)
+}
+
+//------------ logging ---------------------------------------------------------
+
+/// The library logs through the `log` facade. An application that turns on
+/// debug or trace logging makes the library evaluate the arguments of every
+/// `debug!` / `trace!` call (by default they are never evaluated), so code
+/// inside those arguments is library behaviour a user can reach. The monitors
+/// therefore run with a logger at the most verbose level that formats every
+/// record (into a counter, nothing is printed). A panic while formatting
+/// unwinds into the library call that logged and is reported by the monitor
+/// that made the call.
+struct FormattingLogger;
+
+static LOG_RECORDS: std::sync::atomic::AtomicU64 = std::sync::atomic::AtomicU64::new(0);
+static LOG_OCTETS: std::sync::atomic::AtomicU64 = std::sync::atomic::AtomicU64::new(0);
+
+struct CountSink(u64);
+
+impl std::fmt::Write for CountSink {
+    fn write_str(&mut self, s: &str) -> std::fmt::Result {
+        self.0 += s.len() as u64;
+        Ok(())
+    }
+}
+
+impl log::Log for FormattingLogger {
+    fn enabled(&self, _: &log::Metadata) -> bool {
+        true
+    }
+    fn log(&self, record: &log::Record) {
+        use std::fmt::Write;
+        let mut sink = CountSink(0);
+        let _ = write!(sink, "{} {}", record.target(), record.args());
+        LOG_RECORDS.fetch_add(1, std::sync::atomic::Ordering::Relaxed);
+        LOG_OCTETS.fetch_add(sink.0, std::sync::atomic::Ordering::Relaxed);
+    }
+    fn flush(&self) {}
+}
+
+pub fn install_logger() {
+    static ONCE: std::sync::Once = std::sync::Once::new();
+    ONCE.call_once(|| {
+        static LOGGER: FormattingLogger = FormattingLogger;
+        if log::set_logger(&LOGGER).is_ok() {
+            log::set_max_level(log::LevelFilter::Trace);
+        }
+    });
+}
+
+/// (records formatted, octets formatted) so far in this process.
+pub fn log_stats() -> (u64, u64) {
+    (LOG_RECORDS.load(std::sync::atomic::Ordering::Relaxed), LOG_OCTETS.load(std::sync::atomic::Ordering::Relaxed))
 }
